@@ -99,6 +99,7 @@ def _env(data):
     env["keep"] = lambda f, v: v
     env["kw"] = lambda v, w=0: v
     env["o"] = _O()
+    env["hold"] = lambda n, s: _Hold(s)
     env["Select"] = lambda s, f: SeqM([f(x) for x in s])
     env["Where"] = lambda s, f: SeqM([x for x in s if f(x)])
     for k, v in data.items():
@@ -108,6 +109,11 @@ def _env(data):
 
 # ------------------------------------------------------------------------------------------------
 # generator
+
+
+class _Hold:
+    def __init__(self, seq):
+        self.seq = seq
 
 
 def _paren_s(x):
@@ -120,6 +126,9 @@ def _expr(draw, ty, depth, ivars):
     leaf = depth <= 0 or draw(st.integers(0, 9)) < 2
     if ty == "S":
         k = draw(st.integers(0, 1 if leaf else 7))
+        if k == 7 and draw(st.booleans()):
+            # the sequence is an ATTRIBUTE of an object built from other values (which may contain shortcuts themselves)
+            return f"hold({draw(_expr('I', depth - 1, ivars))}, {draw(_expr('S', depth - 1, ivars))}).seq"
         if k >= 6 and ivars:
             # the sequence mentions a variable of an enclosing lambda (names v / w / acc: the folds' own parameter names must not
             # capture them)
